@@ -964,6 +964,18 @@ def _implicit_kinds():
 
 C03_KINDS.update(_implicit_kinds())
 C03_KINDS.update({
+    # `-` and `*` on tuples follow the rules of `-` and `*` component by component (not those of `+`: strings add, they do
+    # not subtract or multiply), also one level down, in compound assignments and when the component is only known at a call
+    "tuple-sub-str":        ('(("a", 1) - ("b", 2))', None),
+    "tuple-mul-str-nested": ('((1.0, (2, "two")) * (3.0, (4, "four")))', None),
+    "tuple-sub-bool":       ('((true, 1) - (false, 2))', None),
+    "tuple-sub-assign":     (None, ['zt1 := ("b", 2)', 'zt1 -= ("a", 1)']),
+    "tuple-mul-assign":     (None, ['zt2 := (1, "x")', 'zt2 *= (2, "y")']),
+    "generic-tuple-sub":    (None, ['zts :: fn p, q -> do', '    (p, 1) - (q, 2)', 'end', 'zts("a", "b")']),
+    "generic-tuple-mul":    (None, ['ztm :: fn p, q -> do', '    (p, 1) * (q, 2)', 'end', 'ztm("a", "b")']),
+    "ok:tuple-sub-mul":     (None, ['zt3 :: (1, 2.0) - (3, 4.0)', 'zt4 :: (1, (2, 3)) * (4, (5, 6))', 'zt5 :: ("a", 1) + ("b", 2)']),
+})
+C03_KINDS.update({
     # an if / case expression one of whose branches ends without a value has no value (2b939af): using it is a mismatch
     "valueless-else":      (None, ['zv1 := 0', 'zv2 := if false do', '    1', 'else do', '    zv1 = 2', 'end', 'zv2 + 1']),
     "valueless-then":      (None, ['zv1 := 0', 'zv2 := if true do', '    zv1 = 2', 'else do', '    1', 'end', 'zv2 + 1']),
